@@ -58,10 +58,15 @@ class DiscInfo(productmd.common.MetadataBase):
     def _validate_description(self):
         self._assert_not_blank("description")
         self._assert_type("description", [str])
+        if not self.description.strip():
+            # written as an empty line, which cannot be read back
+            raise ValueError("%s: Field 'description' must not be blank" % self.__class__.__name__)
 
     def _validate_arch(self):
         self._assert_not_blank("arch")
         self._assert_type("arch", [str])
+        if not self.arch.strip():
+            raise ValueError("%s: Field 'arch' must not be blank" % self.__class__.__name__)
 
     def _validate_disc_numbers(self):
         self._assert_not_blank("disc_numbers")
